@@ -78,6 +78,15 @@ def gen_script(rng, maxd):
 
 def gen(ctx):
     rng = ctx.rng
+    from . import rtgen as R
+    # two runtimes alive in one process at the same time (own threads, own transports): each behaves as it does alone
+    for _ in range(600 if ctx.thorough else 40):
+        # (same algorithm configuration in both: the harness keeps algorithm names in process-global slots)
+        algs, allp = R.gen_cfg(rng, rich=False)
+        cfg = " ".join(x["text"] for x in algs)
+        sa = R.gen_script(rng, algs, allp, n=rng.randrange(8, 25), adversarial=0.2, faults=0.0, stop=0.0)
+        sb = R.gen_script(rng, algs, allp, n=rng.randrange(8, 25), adversarial=0.2, faults=0.0, stop=0.0)
+        yield Case("RUNPAIR", "%s SCRIPT %s || %s SCRIPT %s" % (cfg, " ".join(sa), cfg, " ".join(sb)), tags=("two-runtimes",))
     # a well-formed message at the head of a buffer around and beyond 64 KiB (length arithmetic must not be done in 16 bits)
     import struct as _st
     for msg in (W.enc_ready(7), W.enc_measure(3, 9, [1, 2, 3]), W.enc_create(1, 2, 3, 4, 5, 6, 7, b"reno"),
